@@ -63,7 +63,9 @@ def main():
         if not os.path.exists(modfile):
             na.append({"property_id": pid, "reason": "check not built yet in this session (runtime monitor planned in DESIGN.md %s); nothing is claimed for it" % ref})
             continue
-        level = LEVELS.get(pid, "exploration")
+        import re
+        mm = re.search(r'^LEVEL = "(\w+)"', open(modfile).read(), re.M)
+        level = mm.group(1) if mm else "exploration"
         checks.append({
             "property_id": pid,
             "quick_cmd": "./check %s --tier quick" % pid,
